@@ -338,6 +338,8 @@ fn sized_secrets(seed: u64, j: u64) -> HashMap<String, String> {
     let mut m = HashMap::new();
     m.insert(AK.to_owned(), format!("sk1{}/+", g.alnum(len - 5)));
     m.insert(AK2.to_owned(), format!("sk2{}=", g.alnum(len.saturating_sub(8).max(12))));
+    m.insert(crate::monitor::c05::AK3.to_owned(), format!("sk3{}+", g.alnum(len.saturating_sub(6).max(12))));
+    m.insert(crate::monitor::c05::AK4.to_owned(), format!("sk4{}/", g.alnum(len.saturating_sub(7).max(12))));
     m
 }
 
